@@ -141,8 +141,8 @@ func handleMGet(params internal.HandlerFuncParams) ([]byte, error) {
 
 	values := make(map[string]string)
 	for key, value := range params.GetValues(params.Context, keys.ReadKeys) {
-		if value == nil {
-			values[key] = ""
+		// Keys that are missing or do not hold a string are reported as nil.
+		if value == nil || !isScalarValue(value) {
 			continue
 		}
 		values[key] = fmt.Sprintf("%v", value)
@@ -151,11 +151,12 @@ func handleMGet(params internal.HandlerFuncParams) ([]byte, error) {
 	bytes := []byte(fmt.Sprintf("*%d\r\n", len(params.Command[1:])))
 
 	for _, key := range params.Command[1:] {
-		if values[key] == "" {
+		value, ok := values[key]
+		if !ok {
 			bytes = append(bytes, []byte("$-1\r\n")...)
 			continue
 		}
-		bytes = append(bytes, []byte(fmt.Sprintf("$%d\r\n%s\r\n", len(values[key]), values[key]))...)
+		bytes = append(bytes, []byte(fmt.Sprintf("$%d\r\n%s\r\n", len(value), value))...)
 	}
 
 	return bytes, nil
